@@ -150,3 +150,63 @@ pub fn replay_sessions(rest: &[String]) -> anyhow::Result<()> {
     }
     out.finish()
 }
+
+/// vh replay lim <cases.ndjson> <out.ndjson>: case {"id","class":{cap,budget,cancel},"prog":ast}
+/// Runs the program under a call-stack cap, a tick budget and a cancellation point (the flag is
+/// seen by the first periodic check at or after tick `cancel`), then a probe evaluation on the
+/// same evaluator; everything twice (tick counts must repeat).
+pub fn replay_limits(rest: &[String]) -> anyhow::Result<()> {
+    use starlark::environment::Module;
+    use starlark::eval::Evaluator;
+    use starlark::syntax::AstModule;
+    let cases = util::read_ndjson(&rest[0])?;
+    let mut out = util::NdWriter::create(&rest[1])?;
+    let globals = run::globals();
+    for c in cases {
+        let cap = c["class"]["cap"].as_u64().unwrap_or(50) as usize;
+        let budget = c["class"]["budget"].as_u64().unwrap_or(0);
+        let cancel = c["class"]["cancel"].as_u64().unwrap_or(0);
+        let mut prog = c["prog"].clone();
+        let src = print::module(&mut prog);
+        let mut runs = Vec::new();
+        for _ in 0..2 {
+            let r = util::catch(std::panic::AssertUnwindSafe(|| {
+                Module::with_temp_heap(|module| {
+                    let mut eval = Evaluator::new(&module);
+                    eval.set_max_callstack_size(cap).unwrap();
+                    if budget > 0 {
+                        eval.set_max_tick_count(budget).unwrap();
+                    }
+                    starlark::verif::set_total_ticks(0);
+                    if cancel > 0 {
+                        // the flag is "raised at tick `cancel`": a check sees it iff the total is >= cancel
+                        eval.set_check_cancelled(Box::new(move || starlark::verif::total_ticks() >= cancel));
+                    }
+                    let mut one = |src: &str, eval: &mut Evaluator| -> J {
+                        run::OUT.with(|o| o.borrow_mut().clear());
+                        let r = util::catch(std::panic::AssertUnwindSafe(|| {
+                            let ast = AstModule::parse("lim.star", src.to_owned(), &run::dialect())?;
+                            eval.eval_module(ast, &globals).map(|_| ())
+                        }));
+                        let o = run::OUT.with(|o| std::mem::take(&mut *o.borrow_mut()));
+                        let (kind, line, msg) = match r {
+                            Ok(Ok(())) => (String::new(), 0, String::new()),
+                            Ok(Err(e)) => run::err_of(&e),
+                            Err(p) => ("panic".to_owned(), 0, p),
+                        };
+                        json!({"kind": kind, "line": line, "msg": msg, "out": o, "total": eval.get_total_tick_count(), "stack": eval.call_stack_count()})
+                    };
+                    let main = one(&src, &mut eval);
+                    let probe = one("emit(1)\n", &mut eval);
+                    json!({"main": main, "probe": probe})
+                })
+            }));
+            runs.push(match r {
+                Ok(j) => j,
+                Err(p) => json!({"main": {"kind": "panic", "msg": p, "out": [], "total": 0, "stack": 0}, "probe": {"kind": "panic"}}),
+            });
+        }
+        out.write(&json!({"id": c["id"], "src": src, "runs": runs}))?;
+    }
+    out.finish()
+}
